@@ -283,7 +283,8 @@ fn main() {
         let envs: serde_json::Map<String, J> = std::env::vars_os()
             .map(|(k, v)| (k.to_string_lossy().into_owned(), json!(hex(v.as_bytes()))))
             .collect();
-        let rec = json!({"pid": std::process::id(), "argv": argv,
+        let argv0 = std::env::args_os().next().map(|a| hex(a.as_bytes())).unwrap_or_default();
+        let rec = json!({"pid": std::process::id(), "argv": argv, "argv0": argv0,
                          "cwd": std::env::current_dir().map(|p| p.to_string_lossy().into_owned()).unwrap_or_default(),
                          "env": envs, "uid": unsafe { libc::getuid() }, "gid": unsafe { libc::getgid() },
                          "euid": unsafe { libc::geteuid() }});
